@@ -221,6 +221,18 @@ def body_real(case, ctx):
         loc = np.asarray(e.doflocs, dtype=float)
         info = ge.info(case['elem'])
         strict = True
+        chain = []
+        d0 = case['elem']
+        while d0['cls'] in ('ElementVector', 'ElementDG'):
+            chain.append(d0['cls'])
+            d0 = d0['of']
+        if info is not None and info.get('nodal') and 'ElementVector' not in chain and info['family'] != 'skeleton' and np.isfinite(loc).all():
+            # nodal elements (also under the DG wrapper): row i of the location table is the node of local function i
+            V = np.array([np.asarray(e.lbasis(loc.T, i)[0], dtype=float).reshape(-1) for i in range(len(loc))])
+            if V.shape != (len(loc), len(loc)) or not np.allclose(V, np.eye(len(loc)), rtol=0, atol=1e-10):
+                ctx.fail('doflocs_not_the_nodes', f'{lab}: local function i does not equal delta_ij at the listed locations '
+                         f'(max deviation {np.abs(V - np.eye(len(loc))).max() if V.shape == (len(loc), len(loc)) else V.shape})', **sig)
+                return
         ent = {}
         for v in range(m.nvertices):
             for g in basis.nodal_dofs[:, v].tolist():
